@@ -56,6 +56,15 @@ def fresh_shared_errors():
 fresh_shared_errors()
 
 
+def forget(name):
+    """memory hygiene only: drop a schema name that no later history will use (private registry attribute, best effort)"""
+    try:
+        from tartiflette.schema.registry import SchemaRegistry
+        SchemaRegistry._schemas.pop(name, None)
+    except Exception:  # noqa
+        pass
+
+
 def fresh_name(prefix="vf"):
     return "%s_%d" % (prefix, next(_names))
 
